@@ -55,6 +55,44 @@ def safe_consts(rng, fs):
                 d[3][:] = [fix(m) if m[0] == "const" else m for m in d[3]]
 
 
+def make_clean(rng, fs, gctx):
+    """restrict a generated file set to constructs outside every known class: integer constants,
+    hierarchies of depth <= 2, typed object arrays, no object reached through a nested struct,
+    parameter names p0.."""
+    idx = iface_index(fs)
+    def nested_obj(t):
+        s = gctx.structs.get(t)
+        return bool(s) and any(ft in gctx.structs and gctx.structs[ft]["objs"] > 0 for ft, c, fn in s["fields"])
+    for f in fs["files"]:
+        for i, d in enumerate(f["decls"]):
+            if d[0] == "const" and d[1].startswith("float"):
+                f["decls"][i] = ("const", "uint32", d[2], "5")
+            if d[0] != "iface":
+                continue
+            base = d[2]
+            if base is not None and idx[base][1] is not None:
+                base = None
+            ms = []
+            for m in d[3]:
+                if m[0] == "const" and m[1].startswith("float"):
+                    m = ("const", "uint32", m[2], "5")
+                if m[0] == "method":
+                    ps = []
+                    for (dr, t, sh, pn) in m[2]:
+                        if t == "interface" and sh:
+                            cands = [x for x in idx if x != d[1]]
+                            if not cands:
+                                continue
+                            t = sorted(cands)[0]
+                        if nested_obj(t):
+                            continue
+                        ps.append((dr, t, sh, pn))
+                    m = (m[0], m[1], ps, m[3], m[4])
+                ms.append(m)
+            f["decls"][i] = ("iface", d[1], base, ms)
+            idx = iface_index(fs)
+
+
 def iface_index(fs):
     """{iface: (file path, base, members)}"""
     out = {}
@@ -74,8 +112,27 @@ def chain(idx, name):
 
 
 # ---------------------------------------------------------------- predicates of the known classes (on the input)
-def file_facts(fs, gctx, path):
-    """facts about one file of the set, as main file"""
+def closure(fs, path):
+    by = {f["path"]: f for f in fs["files"]}
+    seen, todo = [], [path]
+    while todo:
+        p = todo.pop()
+        if p in seen or p not in by:
+            continue
+        seen.append(p)
+        todo += by[p]["includes"]
+    return seen
+
+
+def file_facts(fs, gctx, path, deep=True):
+    """facts about one file of the set as main file (deep: over its include closure, since the
+    generated header includes the headers of the included files)"""
+    if deep:
+        out = None
+        for p in closure(fs, path):
+            F = file_facts(fs, gctx, p, deep=False)
+            out = F if out is None else {k: out[k] or F[k] for k in F}
+        return out
     idx = iface_index(fs)
     f = [x for x in fs["files"] if x["path"] == path][0]
     facts = {"float_const": False, "float_int_literal": False, "deep_chain": False, "untyped_objarr": False, "nested_obj_path": False,
@@ -143,7 +200,7 @@ def attribute(lang, facts, untyped, lines):
 
 
 def errlines(text):
-    return [l for l in text.split("\n") if re.search(r"\berror\b|\bwarning\b", l) and not l.startswith("cc1") and "errors generated" not in l
+    return [l for l in text.split("\n") if re.search(r"\berror\b|\bwarning\b", l) and not l.startswith("cc1") and not re.search(r"\d+ errors? generated", l)
             and "warnings being treated as errors" not in l and "warning generated" not in l and "warnings generated" not in l]
 
 
@@ -190,8 +247,8 @@ def c_user(fs, gctx, path, stem):
             for m in idx[anc][2]:
                 if m[0] != "method":
                     continue
-                sig = ", ".join(["Ctx_%s *me" % name] + c_sig(gctx, idx, m[2]))
-                A.append("static int32_t %s%s(%s) { (void)me; return Object_OK; }" % (pre, m[1], sig))
+                sig = ", ".join(["Ctx_%s *ctx__" % name] + c_sig(gctx, idx, m[2]))
+                A.append("%sint32_t %s%s(%s) { (void)ctx__; return Object_OK; }" % ("" if m[3] else "static ", pre, m[1], sig))
         A.append("static %s_DEFINE_INVOKE(%sinvoke, %s, Ctx_%s *)" % (name, pre, pre, name))
         A.append("Object make_%s(Ctx_%s *c) { return (Object){%sinvoke, c}; }" % (name, name, pre))
     return "\n".join(A) + "\n"
@@ -203,8 +260,9 @@ def cpp_user(texts, fs, path, stem):
     idx = iface_index(fs)
     virt = {}
     for t in texts:
-        for m in re.finditer(r"class II(\w+)[^{;]*\{(.*?)\n\};", t, re.S):
-            virt[m.group(1)] = re.findall(r"virtual int32_t (\w+)\((.*?)\) = 0;", m.group(2), re.S)
+        for m in re.finditer(r"class I(\w+)[^{;]*\{(.*?)\n\};", t, re.S):
+            if m.group(1) in idx:
+                virt[m.group(1)] = re.findall(r"virtual int32_t (\w+)\((.*?)\) = 0;", m.group(2), re.S)
     A = ['#include <cstdint>\n#include <cstddef>\n#include "object.h"\n#include "proxy_base.hpp"\n#include "impl_base.hpp"\n#include "%s.hpp"\n#include "%s_invoke.hpp"\n' % (stem, stem)]
     for name, (p, base, members) in idx.items():
         if p != path:
@@ -227,8 +285,23 @@ def rust_user(outdir, fs, path):
     for m in mods:
         A.append('    pub mod %s { include!("%s/%s.rs"); }' % (m, outdir, m))
         t = open(os.path.join(outdir, m + ".rs")).read()
-        for tm in re.finditer(r"pub trait II(\w+)\s*:\s*([^{]*)\{(.*?)\n\}", t, re.S):
-            fns = re.findall(r"(fn [^;]*;)", tm.group(3), re.S)
+        for tm in re.finditer(r"pub trait I(\w+)\s*:\s*([^{]*)\{", t):
+            depth, i = 1, tm.end()
+            while depth and i < len(t):
+                depth += {"{": 1, "}": -1}.get(t[i], 0)
+                i += 1
+            body = t[tm.end():i - 1]
+            fns, depth2, cur = [], 0, ""
+            for ch in body:
+                cur += ch
+                if ch in "([<{":
+                    depth2 += 1
+                elif ch in ")]>}":
+                    depth2 -= 1 if not cur.endswith("->") else 0
+                elif ch == ";" and depth2 == 0:
+                    if "fn " in cur:
+                        fns.append(cur[cur.index("fn "):].strip())
+                    cur = ""
             traits[tm.group(1)] = (m, tm.group(2).strip(), fns)
     A.append("}")
     idx = iface_index(fs)
@@ -241,9 +314,9 @@ def rust_user(outdir, fs, path):
             if anc not in traits:
                 continue
             m, bounds, fns = traits[anc]
-            A.append("    impl crate::interfaces::%s::II%s for U_%s {" % (m, anc, name))
+            A.append("    impl crate::interfaces::%s::I%s for U_%s {" % (m, anc, name))
             for fn in fns:
-                A.append("        " + " ".join(fn.split())[:-1] + " { unimplemented!() }")
+                A.append("        " + re.sub(r"\bError\b", "crate::interfaces::%s::Error" % m, " ".join(fn.split())[:-1]) + " { unimplemented!() }")
             A.append("    }")
         m = traits[name][0]
         A.append("    pub fn make_%s() -> crate::interfaces::%s::%s { crate::interfaces::%s::%s::from(U_%s) }" % (name.lower(), m, name, m, name, name))
@@ -268,8 +341,12 @@ def java_user(outdir, fs, path):
         if p != path or name not in decl:
             continue
         A.append("    static class U_%s implements %s {" % (name, name))
+        seen = set()
         for anc in chain(idx, name):
             for mn, sig in decl.get(anc, []):
+                if mn in seen:
+                    continue
+                seen.add(mn)
                 A.append("        public void %s(%s) throws IMinkObject.InvokeException { }" % (mn, sig))
         A.append("    }")
         A.append("    static IMinkObject make_%s() { return new %s.MinkObject(new U_%s()); }" % (name, name, name))
